@@ -262,7 +262,7 @@ class Evaluator:
                 return (not r) if neg else r
             if isinstance(b, (list, tuple, dict, set, frozenset)) and z3.is_string(a):
                 items = [x for x in b if isinstance(x, str)]
-                r = z3.Or(*[a == z3.StringVal(x) for x in items]) if items else z3.BoolVal(False)
+                r = z3.InRe(a, z3.Union(*[z3.Re(x) for x in items]) if len(items) > 1 else z3.Re(items[0])) if items else z3.BoolVal(False)
                 return z3.Not(r) if neg else r
             if (z3.is_string(b) or isinstance(b, str)) and (z3.is_string(a) or isinstance(a, str)):
                 bb = z3.StringVal(b) if isinstance(b, str) else b
@@ -488,6 +488,19 @@ class Evaluator:
                 yield self.concat(parts), ccs
 
     def method(self, recv, attr, args, kw, cs):
+        import re as _re
+
+        if isinstance(recv, _re.Pattern) and attr in ("match", "fullmatch", "search") and len(args) == 1 and (z3.is_string(args[0]) or isinstance(args[0], str)):
+            from vf.smt import regex as _regex
+
+            try:
+                rx = _regex.to_z3(recv, attr)
+            except _regex.Untranslatable as e:
+                raise Untranslatable(f"regex: {e}")
+            self.patterns = getattr(self, "patterns", []) + [(recv, attr)]
+            arg = z3.StringVal(args[0]) if isinstance(args[0], str) else args[0]
+            yield z3.InRe(arg, rx), cs
+            return
         if isinstance(recv, FakeHash) and attr == "digest":
             yield recv.digest(), cs
             return
@@ -523,7 +536,13 @@ class Evaluator:
             arg = args[0]
             alts = arg if isinstance(arg, tuple) else (arg,)
             terms = []
+            anyc = z3.Star(z3.AllChar(z3.ReSort(z3.StringSort())))
             for a in alts:
+                if isinstance(a, str) and z3.is_string(r) and not z3.is_string_value(r):
+                    # constant affix of a symbolic string: stay inside the regex theory (mixing PrefixOf with InRe stalls z3)
+                    rx = z3.Concat(anyc, z3.Re(a)) if attr == "endswith" else z3.Concat(z3.Re(a), anyc)
+                    terms.append(z3.InRe(r, rx) if a else z3.BoolVal(True))
+                    continue
                 a = z3.StringVal(a) if isinstance(a, str) else a
                 terms.append(z3.SuffixOf(a, r) if attr == "endswith" else z3.PrefixOf(a, r))
             yield (z3.Or(*terms) if len(terms) > 1 else terms[0]), cs
@@ -659,7 +678,7 @@ class Evaluator:
         return str(r), (s.model() if str(r) == "sat" else None), s
 
 
-def cross_check_cvc5(solver, expected, timeout_ms=60000):
+def cross_check_cvc5(solver, expected, timeout_ms=10000):
     """Feed the same query to cvc5 through its Python API; returns 'agree', 'disagree:<r>' or 'unavailable:<why>'."""
     try:
         import cvc5
